@@ -167,7 +167,7 @@ func main() {
 	if *writeLedger {
 		rep.writeLedger(filepath.Join(*verifDir, "ledger.json"))
 	}
-	if rep.exitCode == 0 && len(rep.known) == 0 {
+	if rep.exitCode == 0 {
 		os.RemoveAll(wd) // nothing refers to the query files
 	}
 	os.Exit(rep.exitCode)
